@@ -75,9 +75,9 @@ def run(tier, seed, only=None):
             obs += idents("from(to(F)) %s" % nm, back[nm + "_sec_forces"], F, meta={"family": "rotating back from the wind frame inverts the rotation into it"})
         def inv_rp(ob, env, ss=ss, to=to, fr=fr):
             rng = np.random.default_rng(2)
-            a_, b_ = 0.13, -0.21  # rad
             bad = []
-            for sx in ss:
+            # every sign combination of the two angles (rad): a sine recovered from a cosine is right for one sign only
+            for sx, (a_, b_) in [(sx_, ab) for sx_ in ss for ab in ((0.13, -0.21), (-0.13, -0.21), (0.13, 0.21), (-0.13, 0.21))]:
                 nm = sx["name"]
                 shp = (sx["mesh"].shape[0] - 1, sx["mesh"].shape[1] - 1, 3)
                 F = rng.standard_normal(shp)
@@ -89,10 +89,11 @@ def run(tier, seed, only=None):
                     ins_[x["name"] + "_sec_forces_w_frame"] = (F @ T.T) if x is sx else np.zeros(sh2)
                 back = fr.real(ins_)[nm + "_sec_forces"]
                 if np.abs(back - F).max() > 1e-12:
-                    bad.append("%s: rotating T F back gives an error of %.3g" % (nm, np.abs(back - F).max()))
+                    bad.append("%s, alpha = %+.2f rad, beta = %+.2f rad: rotating T F back gives an error of %.3g" % (nm, a_, b_, np.abs(back - F).max()))
             return bool(bad), "; ".join(bad) or "RotateFromWindFrame inverts the documented rotation"
 
-        run_obligations(rep, "RotateFrom o RotateTo = id[%s]" % cn, obs, timeout, levels=(2,), family=lambda ob: "RotateFromWindFrame: " + ob.meta["family"], replay=inv_rp)
+        run_obligations(rep, "RotateFrom o RotateTo = id[%s]" % cn, obs, timeout, levels=(2,), family=lambda ob: "RotateFromWindFrame: " + ob.meta["family"], replay=inv_rp,
+                        fixed={"alpha[0]": (0.13, -0.13), "beta[0]": (-0.21, 0.21)})
         # ---- Prandtl-Glauert scaling exponents
         ins = sp.inputs()
         o = sp.sym1(ins)
@@ -324,7 +325,7 @@ def group_level(rep, tier, timeout):
             return replay_group(ss, rotational=rotational)
 
         run_obligations(rep, "real CompressibleVLMStates vs VLMStates on the transformed problem [%s]" % cn, obs, timeout, levels=(1, 2), replay=rp,
-                        family=lambda ob: "CompressibleVLMStates: " + ob.meta["family"], fixed={"Mach_number[0]": 0.5})
+                        family=lambda ob: "CompressibleVLMStates: " + ob.meta["family"], fixed={"Mach_number[0]": 0.5, "alpha[0]": (0.13, -0.13), "beta[0]": (-0.21, 0.21)})
     normals_lemma(rep, timeout)
 
 
